@@ -23,18 +23,46 @@ type FileCase struct {
 	R1Same     bool    `json:"r1_same"`
 	DumpV2     []KV    `json:"dump_v2"` // RocksDB v2, every key (rows only under "\000o" keys)
 	Queries    []Query `json:"queries"`
+	// Cache > 0: the handlers run with the response cache enabled (LRU of this size) and the
+	// queries of Warmup, then those of Queries, are asked one after the other through the
+	// same handlers (a history).  Only Queries are judged; Warmup keeps its observations for
+	// the record.  Both fields are absent from the cases of C01 / C02 / C04.
+	Cache  int     `json:"cache,omitempty"`
+	Warmup []Query `json:"warmup,omitempty"`
 }
 
 // Build compiles the lines of c, dumps the databases and runs the queries (wire, client, max
 // of each query are inputs; everything else is recomputed).
 func (c *FileCase) Build(scratch string, idx int) error {
-	b := Compile(scratch, idx, FileText(c.Lines), c.Mtime)
+	return BuildShared([]*FileCase{c}, scratch, idx)
+}
+
+// BuildShared builds cases that hold the same data file (lines, mtime): the file is compiled
+// and dumped once, every case then runs its queries through handlers of its own.
+func BuildShared(cs []*FileCase, scratch string, idx int) error {
+	if len(cs) == 0 {
+		return nil
+	}
+	b := Compile(scratch, idx, FileText(cs[0].Lines), cs[0].Mtime)
 	defer b.Remove()
+	for _, c := range cs {
+		if err := c.runOn(b); err != nil {
+			return err
+		}
+	}
+	return nil
+}
+
+// runOn fills in the dumps of the compiled databases and runs the queries of c.
+func (c *FileCase) runOn(b *Built) error {
 	c.DumpV1, c.DumpR1, c.DumpV2 = []KV{}, []KV{}, []KV{}
 	c.CompileErr = b.Err
 	if b.Err != "" {
 		for i := range c.Queries {
 			c.Queries[i].Obs = map[string]*Obs{}
+		}
+		for i := range c.Warmup {
+			c.Warmup[i].Obs = map[string]*Obs{}
 		}
 		return nil
 	}
@@ -54,11 +82,24 @@ func (c *FileCase) Build(scratch string, idx int) error {
 	if c.DumpV1 == nil {
 		c.DumpV1 = []KV{}
 	}
-	s, err := Open(b)
+	var s *Servers
+	var err error
+	if c.Cache > 0 {
+		s, err = OpenCached(b, c.Cache)
+	} else {
+		s, err = Open(b)
+	}
 	if err != nil {
 		return err
 	}
 	defer s.Close()
+	if c.Cache > 0 {
+		for i := range c.Warmup {
+			if err := s.Ask(&c.Warmup[i]); err != nil {
+				return err
+			}
+		}
+	}
 	for i := range c.Queries {
 		if err := s.Ask(&c.Queries[i]); err != nil {
 			return err
@@ -326,6 +367,35 @@ func BuildAll(cs []*FileCase, scratch string, workers int) error {
 		}()
 	}
 	for i := range cs {
+		ch <- i
+	}
+	close(ch)
+	for w := 0; w < workers; w++ {
+		<-done
+	}
+	for _, e := range errs {
+		if e != nil {
+			return e
+		}
+	}
+	return nil
+}
+
+// BuildGroups is BuildAll over groups of cases that share a data file (BuildShared); group i is
+// built in directory i.
+func BuildGroups(groups [][]*FileCase, scratch string, workers int) error {
+	ch := make(chan int)
+	errs := make([]error, len(groups))
+	done := make(chan struct{})
+	for w := 0; w < workers; w++ {
+		go func() {
+			for i := range ch {
+				errs[i] = BuildShared(groups[i], scratch, i)
+			}
+			done <- struct{}{}
+		}()
+	}
+	for i := range groups {
 		ch <- i
 	}
 	close(ch)
